@@ -160,8 +160,22 @@ def gen_problem(rng, kind, d, q, ordk, strats=STRATS, lins=("ts0", "ts1"), calib
     return c
 
 
+def bound_field(c, horizon):
+    """Scale the polynomial field by one common factor such that the solution provably stays in |u^(i)| <= R on the
+    horizon (no finite-time blow-up, hence no adaptive solve that never terminates)."""
+    R = Fr(4 if c["ord"] == 1 else 6)
+    S = max(sum(abs(Fr(cf)) * R ** sum(ex) for cf, ex in p) for p in c["f"])
+    fac = min(Fr(1), Fr(2) / (Fr(horizon) * S)) if S > 0 else Fr(1)
+    # a power of two keeps the coefficients exactly representable
+    e = 0
+    while Fr(1, 2 ** e) > fac:
+        e += 1
+    c["f"] = [[[Fr(cf) / 2 ** e, ex] for cf, ex in p] for p in c["f"]]
+    return c
+
+
 def make_adaptive(rng, c, strats=("filter", "fixedpoint")):
-    c["f"] = [[[Fr(cf) / 4, ex] for cf, ex in p] for p in c["f"]]
+    bound_field(c, Fr(3, 4))
     if c["strat"] not in strats:
         c["strat"] = rng.choice(strats)
     c["damp"] = Fr(0)
@@ -173,8 +187,8 @@ def make_adaptive(rng, c, strats=("filter", "fixedpoint")):
     return c
 
 
-def run(cases):
-    payload = {"cases": [gen.floatable(c) for c in cases], "workers": 14}
+def run(cases, budget):
+    payload = {"cases": [gen.floatable(c) for c in cases], "workers": 14, "budget_s": budget}
     return lib.run_impl("c15_impl.py", payload, timeout=3000)["results"]
 
 
@@ -267,7 +281,7 @@ def pytree_check(ck, n):
         ordk = ck.rng.choice([1, 1, 2])
         q = ck.rng.randint(ordk, 3 if quick else 5)
         c = gen_problem(ck.rng, kind, d, q, ordk)
-        if ck.rng.random() < 0.4:
+        if ck.rng.random() < 0.3:
             make_adaptive(ck.rng, c)
         c.update({"type": "pytree", "spec": spec, "tree_kind": tk, "container": ck.rng.choice(["list", "tuple", "namedtuple"])})
         cases.append(c)
@@ -292,6 +306,9 @@ def pytree_check(ck, n):
                  py_calib=c["calib"], py_lin=c["lin"], py_d=c["d"], py_leaf_ranks=",".join(map(str, ranks)))
         sig = f"C15.pytree.{c['tree_kind']}"
         rep = {"case": jc}
+        if r.get("timeout"):
+            ck.hist.setdefault("runs_killed_by_time_budget", {"n": 0})["n"] += 1
+            continue
         if "error" in r:
             ck.report(sig, f"{describe(c)}: implementation raised {r['error']}", dict(rep, tb=r.get("tb")))
             continue
@@ -360,6 +377,10 @@ def permute_case(c, p):
 
 def compare_dense_layout(ck, c, sig, rep, ra, rb, rt, what_a, what_b, base_m, base_P, label, idx=None, scale_perm=None):
     """A (reference) vs B in the dense layout; rt = twin of A (adaptive only). idx: B is expected to be A[idx]."""
+    for r in (ra, rb):
+        if r.get("timeout"):
+            ck.hist.setdefault("runs_killed_by_time_budget", {"n": 0})["n"] += 1
+            return
     for r, who in ((ra, what_a), (rb, what_b)):
         if "error" in r:
             ck.report(sig, f"{describe(c)}: implementation raised {r['error']} ({who})", dict(rep, tb=r.get("tb")))
@@ -450,18 +471,19 @@ def jit_check(ck, n):
     runs, meta = [], []
     for g in range(n):
         kind = KINDS[g % 3]
-        d = ck.rng.choice([1, 2, 2])
+        # one shape per factorisation: under disable_jit every primitive/shape is compiled on first use (about a minute);
+        # the runs of one factorisation share a worker and reuse those kernels
+        d, q = 2, 2
         ordk = ck.rng.choice([1, 1, 2])
-        q = ck.rng.randint(ordk, 2)
         c = gen_problem(ck.rng, kind, d, q, ordk, max_steps=3)
-        if g % 3 == 2 or ck.rng.random() < 0.3:
+        if g // 3 % 2 == 1:
             make_adaptive(ck.rng, c)
             t0 = c["grid"][0]
             c["adaptive"]["save_at"] = [t0, t0 + Fr(1, 8), t0 + Fr(1, 4)]
             c["adaptive"]["rtol"], c["adaptive"]["atol"] = 1e-2, 1e-3
         c["type"] = "solve"
         start = len(runs)
-        runs += [c, dict(copy.deepcopy(c), nojit=True)]
+        runs += [c, dict(copy.deepcopy(c), nojit=True, pool="nojit-" + kind)]
         if c["routine"] == "adaptive":
             runs.append(twin_of(ck.rng, c))
         meta.append((c, start))
@@ -488,7 +510,7 @@ def vmap_check(ck, n):
         c = {"type": "vmap", "kind": kind, "q": q, "d": d, "ord": 1,
              "lin": ck.rng.choice(["ts0", "ts1"]), "strat": ck.rng.choice(["filter", "fixedpoint"] if adaptive else list(STRATS)),
              "calib": ck.rng.choice(CALIBS), "damp": Fr(0), "t0": Fr(0),
-             "f": [[[Fr(cf) / 8, ex] for cf, ex in gen.gen_poly(ck.rng, d, 2, ck.rng.randint(1, 2), False)] for _ in range(d)]}
+             "f": [[[Fr(cf) / 32, ex] for cf, ex in gen.gen_poly(ck.rng, d, 2, ck.rng.randint(1, 2), False)] for _ in range(d)]}
         B = ck.rng.randint(3, 4)
         lam_hi = ck.rng.choice([60, 100, 150])
         lams = [Fr(1, 2)] + [Fr(ck.rng.randint(2, lam_hi // 2)) for _ in range(B - 2)] + [Fr(lam_hi)]
@@ -531,6 +553,9 @@ def vmap_check(ck, n):
                  sample={"vmap": {k_: jc[k_] for k_ in ("kind", "q", "d", "strat", "calib", "lin", "routine", "lams")}, "step_ratio": ratio},
                  vm_kind=c["kind"], vm_routine=c["routine"], vm_strat=c["strat"], vm_calib=c["calib"], vm_lin=c["lin"],
                  vm_step_ratio=("n/a" if ratio is None else "<5" if ratio < 5 else "5..10" if ratio < 10 else ">=10"))
+        if r.get("timeout"):
+            ck.hist.setdefault("runs_killed_by_time_budget", {"n": 0})["n"] += 1
+            continue
         if "error" in r:
             ck.report(sig, f"{describe(c)}: implementation raised {r['error']}", dict(rep, tb=r.get("tb")))
             continue
@@ -564,7 +589,7 @@ def vmap_check(ck, n):
                     if what == "mean":
                         note_noise(ck, "vmap", noise)
                 track(f"vmap {c['routine']} {what}", w)
-                if not w <= allowance(c["routine"], 1e-10, noise):
+                if not w <= allowance(c["routine"], 1e-10 if what == "mean" else 1e-8, noise):
                     idx = np.unravel_index(np.nanargmax(np.abs(a - b)), a.shape)
                     bad = f"u.{what} differs (relative {w:.3g}, twin noise {noise:.3g}) at {tuple(int(x) for x in idx)}: single {a[idx]!r} vs vmap {b[idx]!r}"
             if bad:
@@ -581,14 +606,20 @@ def main():
     ck = lib.Check("C15")
     pr = ck.run_proof()
     quick = ck.tier == "quick"
-    phases = [pytree_check(ck, 20 if quick else 200), permutation_check(ck, 15 if quick else 150),
-              jit_check(ck, 9 if quick else 45), vmap_check(ck, 8 if quick else 60)]
+    phases = [pytree_check(ck, 16 if quick else 200), permutation_check(ck, 12 if quick else 150),
+              jit_check(ck, 6 if quick else 36), vmap_check(ck, 6 if quick else 60)]
     batches = [next(ph) for ph in phases]            # every phase first yields its runs ...
     allruns = [r for b in batches for r in b]
-    res = run(allruns)                                # ... all runs are dispatched together ...
+    res = run(allruns, 330 if quick else 6000)     # ... all runs are dispatched together ...
     walls = sorted(((r.get("_wall", 0.0), f"{c['type']}/{c.get('kind')}/{c.get('routine')}{'/nojit' if c.get('nojit') else ''}") for c, r in zip(allruns, res)), reverse=True)
     ck.hist["slowest_runs_s"] = {w[1] + f"#{i}": w[0] for i, w in enumerate(walls[:5])}
     ck.hist["runs"] = {"n": len(allruns), "sum_s": round(sum(w[0] for w in walls), 1)}
+    agg = {}
+    for w, name in walls:
+        a = agg.setdefault(name, [0, 0.0])
+        a[0] += 1
+        a[1] += w
+    ck.hist["run_seconds_by_category(n,total)"] = {k_: f"{v[0]} runs, {v[1]:.0f}s" for k_, v in sorted(agg.items())}
     k = 0
     for ph, b in zip(phases, batches):               # ... and every phase then evaluates its slice
         try:
@@ -606,7 +637,7 @@ def main():
               "output_scale/num_steps equal (1e-12 on fixed grids), structure = caller's (isotropic u.std: one scalar per coefficient, as documented), "
               "leading axis = len(grid)/len(save_at); (ii) permutation of 2..4 components incl. per-dimension base scales: solution, covariance and "
               "per-dimension scales permuted (1e-10); (iii) jit vs jax.disable_jit() (1e-12 of |mean|+sd, 1e-9 of sd_i sd_j; identical num_steps); "
-              "(iv) jax.vmap over initial values and a stiffness parameter vs one at a time (1e-10, NaN check, identical num_steps); adaptive batches "
+              "(iv) jax.vmap over initial values and a stiffness parameter vs one at a time (means 1e-10 of |mean|+sd, std/scales 1e-8, NaN check, identical num_steps); adaptive batches "
               "whose step counts differ by >= 5x are the non-trivial ones. Adaptive comparisons: identical num_steps, values within 1e-6 + 50x the "
               "deviation of a rounding-size-perturbed twin run (conditioning of the adaptive solve); non-trivial: all others; distinct by full input",
               assumptions=lib.TRUSTED_BASE + ["C15 proof part is PARTIAL: jit and vmap equivalence are runtime properties of JAX/XLA that no Gallina model exhibits; "
